@@ -1,0 +1,16 @@
+//go:build verif
+// +build verif
+
+package wasp
+
+// VerifHook receives the "finished" signals the verification harness needs to decide
+// quiescence without sleeping (build tag "verif" only):
+//
+//	writer.enq / writer.done     a job entered / left the writer
+//	publish.enq / publish.done   a publish was handed to / finished by a publish worker
+//	conn.pkt.done                the connection loop finished processing one packet
+//	conn.read.err                the connection loop stopped reading
+//	shutdown.done                teardown of a session finished
+var VerifHook = func(point string, args ...interface{}) {}
+
+func vhook(point string, args ...interface{}) { VerifHook(point, args...) }
